@@ -5,6 +5,7 @@ package codec
 import (
 	"bytes"
 	"fmt"
+	"runtime/debug"
 	"sort"
 	"testing"
 
@@ -278,6 +279,9 @@ func TestC16_Dynamic(t *testing.T) {
 		merr, mpan := func() (err error, pan string) {
 			defer func() {
 				if rec := recover(); rec != nil {
+					if fromRapid(debug.Stack()) {
+						panic(rec) // rapid's own control flow (e.g. bit stream exhausted while shrinking)
+					}
 					pan = fmt.Sprint(rec)
 				}
 			}()
